@@ -12,7 +12,8 @@ RULE = ("seeded link definitions (numeric +n/-n, >/<, * orders; resname strings 
         "blocks of the force fields shipped with polyply (-lib), the parsed definitions translated for the same reference "
         "(residue attributes such as chiral included); expectation by brute-force "
         "enumeration of injective residue assignments (pvmon.oracle.refparams). non-trivial = at least one link match "
-        "expected or observed; distinct = hash of (files, graph)")
+        "expected or observed; distinct = hash of (files, graph)"
+        ' Later strata: the shipped libraries as parsed (pvmon.oracle.fromvermouth), node keys not numbered like residue ids, partial per-atom residue names, blocks sharing atom names, links replacing atom types.')
 ASSUMPTIONS = ["non-edge anchors are atoms of the reference residue (order 0) and never name atoms of their own link",
                "a link atom is identified by the attributes the atom had when its block was copied (an atom type replaced by an earlier link is not seen by later links; [patterns] do see it)",
                "'same atoms' for the overwrite rule = same ordered atom tuple and version",
